@@ -3,6 +3,7 @@ package props
 import (
 	"fmt"
 	"net"
+	"strings"
 	"time"
 
 	"github.com/jwhited/corebgp"
@@ -457,6 +458,16 @@ func c07Scenarios(th bool) []*Scn {
 
 func c07Check(c *harness.Ctx) {
 	scns := c07Scenarios(c.Thorough())
+	if c.Thorough() {
+		// the forced-collision scenarios (which decide the dominance rule) one bound deeper.
+		// (An unbounded search of these scenarios was tried: > 190 000 happens-before states after
+		// 240 s without terminating, so it is not part of the check.)
+		for _, s := range scns {
+			if strings.HasPrefix(s.Name, "forced-collision/") {
+				s.Bound = 4
+			}
+		}
+	}
 	for i, s := range scns {
 		if !c.Mine(i) {
 			continue
@@ -477,6 +488,7 @@ func init() {
 		Assume: []string{"delay-bounded schedules (bound reported in coverage.min_bound_completed)", "virtual network (A3); the dominance rule is judged only in the forced shapes where the remote's script removes the TCP-level ambiguity"},
 		Run:    c07Check,
 		Replay: scnReplay("C07", func(name string) *Scn {
+			name = strings.TrimPrefix(name, "unbounded:")
 			for _, s := range c07Scenarios(true) {
 				if s.Name == name {
 					return s
